@@ -124,6 +124,7 @@ func c38Run(e *Env, p *c38Plan) {
 					}
 				}
 				if c.API != "do" {
+					e.Nontrivial = true // a deadline call was judged on its return time
 					if took > d+holdBudget+time.Second {
 						e.Violation("late-return", "%s(%v) for %s returned after %v with %v", c.API, d, c.ID, took, err)
 						return
@@ -154,7 +155,8 @@ func c38Run(e *Env, p *c38Plan) {
 	} else {
 		time.Sleep(40 * time.Second)
 	}
-	for id, o := range outs {
+	for _, id := range sortedKeys(outs) {
+		o := outs[id]
 		if errors.Is(o.err, fasthttp.ErrPipelineOverflow) {
 			e.Ob(1)
 			if n := len(fs.Requests(id)); n > 0 {
